@@ -8,6 +8,21 @@ from concurrent.futures import ThreadPoolExecutor
 _cache = {}
 
 
+_GEN = {}
+_GEN_CALLS = [0]
+
+
+def _plugin_generator(mod):
+    """every second call in a worker process re-uses one long-lived generator object of the plug-in (a tool that generates
+    several schemas in a row keeps it); the others get a fresh one"""
+    _GEN_CALLS[0] += 1
+    if _GEN_CALLS[0] % 2 == 0:
+        if mod.__name__ not in _GEN:
+            _GEN[mod.__name__] = mod.Generator()
+        return _GEN[mod.__name__]
+    return mod.Generator()
+
+
 def w_gen_c(case):
     """worker: schema text -> generated files (name -> contents) + schema dict"""
     import tempfile as _t
@@ -21,7 +36,7 @@ def w_gen_c(case):
     fcp = r.unwrap()
     out = _t.mkdtemp(prefix="fcpc_")
     try:
-        files = fcp_can_c.Generator().generate(fcp, {"output": out})
+        files = _plugin_generator(fcp_can_c).generate(fcp, {"output": out})
         return {"files": {os.path.basename(str(f["path"])): str(f["contents"]) for f in files},
                 "schema": fcp.to_dict()}
     finally:
